@@ -103,10 +103,44 @@ Example frame_header_example :
   cio_frame_eval sched_whole None anim_bytes
     = (34, Some (IOk {| fh_anmf_size := 32; fh_x := 2; fh_y := 4; fh_width := 4; fh_height := 5; fh_duration := 100;
                         fh_use_alpha_blending := false; fh_dispose := false; fh_chunk := KVP8L; fh_chunk_size := 8;
-                        fh_chunk_size_rounded := 8 |}, 45))
+                        fh_chunk_size_rounded := 8; fh_next_frame_start := 44 |}, 45))
   /\ match snd (cio_frame_eval (sched_const 1) None anim_bytes) with Some (IOk _, c) => c | _ => -1 end = 135
   /\ fst (cio_frame_eval (sched_const 1) None anim_bytes) = 102.
 Proof. vm_compute. repeat split; reflexivity. Qed.
+
+(* an unknown chunk ("abcd", 3 bytes + padding) between the two ANMF chunks: read_frame for frame 2 starts at offset
+   84, steps over it (one read_chunk_header = 2 read_exact, one seek_relative: 3 more calls under the whole-file
+   schedule, 8 + 1 more one byte at a time) and moves next_frame_start to 96.  The call counter at the start of each
+   read_frame is an input of frames_loop (50 / 100 and 200 / 400 here). *)
+Definition ex_fr2l : WebP.Spec.Container.frame :=
+  {| f_x := 0; f_y := 0; f_w1 := 3; f_h1 := 4; f_duration := 40; f_rsv := 0; f_noblend := false; f_dispose := true;
+     f_image := FLossless ex_vp8l3; f_unknown := [] |}.
+Definition ex_gap : container :=
+  Extended {| x_rsv1 := 0; x_icc := false; x_alpha := true; x_exif := false; x_xmp := false; x_anim := true;
+              x_rsv2 := 0; x_rsv3 := 0; x_w1 := 19; x_h1 := 29 |}
+    [CANIM [1; 2; 3; 4] 0; CANMF ex_fr1; CUnknown ex_unknown; CANMF ex_fr2l].
+Definition gap_bytes : list Z := serialize ex_gap.
+
+Definition frames_summary (x : Z * option (list (ires frame_header * Z))) :=
+  (fst x, match snd x with
+          | Some l => map (fun rc => match fst rc with
+                                     | IOk fh => (true, fh_anmf_size fh, fh_next_frame_start fh, fh_duration fh, snd rc)
+                                     | _ => (false, 0, 0, 0, snd rc) end) l
+          | None => [] end).
+Example skipped_chunk_between_frames :
+  wf ex_gap = true /\ MC.len gap_bytes = 136
+  /\ frames_summary (cio_frames_eval sched_whole None gap_bytes [50; 100])
+     = (37, [(true, 32, 44, 100, 61); (true, 32, 96, 40, 114)])            (* 11 calls, then 11 + 3 *)
+  /\ frames_summary (cio_frames_eval (sched_const 1) None gap_bytes [200; 400])
+     = (111, [(true, 32, 44, 100, 233); (true, 32, 96, 40, 442)]).         (* 33 calls, then 33 + 9 *)
+Proof. vm_compute. repeat split; reflexivity. Qed.
+
+(* a fault at each of the 14 calls of the second read_frame (the 3 calls of the skipping loop included) *)
+Example every_fault_surfaces_in_skipping_frame :
+  forallb (fun k => match cio_frames_eval sched_whole (Some k) gap_bytes [50; 100] with
+                    | (37, Some [(IOk _, 61); (IErr XFault, c)]) => c =? k + 1
+                    | _ => false end) (zrange 14 100) = true.
+Proof. vm_compute. reflexivity. Qed.
 
 (* ---------------------------------------------------------------------------------------------- *)
 (* the failure kind matters                                                                         *)
